@@ -9,9 +9,26 @@ import (
 // ContextRefRename returns a transformation function that renames context references
 func ContextRefRename(from, to string) func(excellent.Expression) bool {
 	return func(exp excellent.Expression) bool {
+		// references inside an anonymous function which has a parameter of that name refer to the parameter,
+		// not to the context, so they are left alone
+		bound := make(map[*excellent.ContextReference]bool)
+		exp.Visit(func(e excellent.Expression) {
+			if fn, ok := e.(*excellent.AnonFunction); ok {
+				for _, arg := range fn.Args {
+					if strings.EqualFold(arg, from) {
+						fn.Body.Visit(func(b excellent.Expression) {
+							if ref, ok := b.(*excellent.ContextReference); ok {
+								bound[ref] = true
+							}
+						})
+					}
+				}
+			}
+		})
+
 		changed := false
 		exp.Visit(func(e excellent.Expression) {
-			if ref, ok := e.(*excellent.ContextReference); ok && strings.EqualFold(ref.Name, from) {
+			if ref, ok := e.(*excellent.ContextReference); ok && !bound[ref] && strings.EqualFold(ref.Name, from) {
 				ref.Name = to
 				changed = true
 			}
